@@ -135,6 +135,7 @@ def run(tier):
     progs.append(("a0,a0,cu,e", "sp1;rc2;tc2|sd2.1.1;dt2.1;dt2.0;dt2.2"))
     progs.append(("a0,a0,o,m", "sp1;a0.st.1;ic2;jn0|co2.2|a0.ld"))
     progs.append(("a0,b2", "sp1;a0.ld;bw1;jn0|a0.st.1;bw1"))
+    progs.append(("a0,a0,s0:u", "sp1;sv2;a0.st.3;a1.st.1|a0.ld;sr2.1;a0.st.1"))      # the witness of F5c
     # four arrivals at a barrier of two: which pairs form, and who completes each, depends on choice points before the arrivals
     progs.append(("a0,b2", "sp1;sp2;sp3;bw1;jn0;jn1;jn2|a0.st.1;bw1|bw1|a0.ld;bw1"))
     # rendezvous channel: try_send succeeds only if the receiver is already waiting
